@@ -92,7 +92,7 @@ def run(rep):
                 "analysis; distinct by source text")
     rep.assumptions = [
         "the Lean evaluator model is the hand transcription of the specification's semantics (trusted reading)",
-        "model limitations answered `unsupported` (non-integer number to string, fmod outside the exact range, "
+        "model limitations answered `unsupported` (non-integer number to string, "
         "string formatting, import) are skipped and counted",
         "f64 arithmetic in the model is Lean's `Float` (IEEE binary64, same operations as Rust)",
         "error details that embed Rust float formatting are compared by kind only",
